@@ -49,6 +49,7 @@ Call(e) ==
     \/ e.ev = "autoflushfail" /\ AutoFlushFails
     \/ e.ev = "autoflush" /\ AutoFlush
     \/ e.ev = "rotate"    /\ Rotate
+    \/ e.ev = "rotcheck"  /\ UNCHANGED vars
     \/ e.ev = "clear"     /\ Clear
     \/ e.ev = "conf"      /\ SetConf(e.en = 1, e.an = 1)
     \/ e.ev = "restart"   /\ Restart(e.ms)
